@@ -58,13 +58,21 @@ class C09(Prop):
                 return (f'the joining task was cancelled while {where} waited for cancelled members: '
                         'it ended with members still running')
             return 'join finished although a member of the group is still running'
-        if je['joined'] and obs['late_add'] == 'added':
-            return 'a task could be added after join had finished'
+        if obs['late_add'] == 'added':
+            return ('a task could be added after join had finished' +
+                    (' (the joining task was cancelled; every member had finished, the group was not marked joined)' if not je['joined'] else ''))
         return None
 
     def classify(self, case, obs, clause):
         je = obs['join_end'] or {}
         if 'joining task was cancelled while' in clause:
+            return 'F12'
+        labs = [lab for lab, _ in obs['trace']]
+        first_pass = next((i for i, lab in enumerate(labs) if lab[0] == 'run' and lab[1] == ['J'] and len(lab) > 3 and lab[3] and lab[2]), None)
+        if 'the group was not marked joined' in clause and first_pass is not None and any(
+                lab[0] == 'cancelJ' for lab in labs[first_pass:]):
+            # the same defect seen a moment later: the joining task was cancelled while join was already waiting for the members
+            # it had cancelled, join ended at once (joined stays False); by the time the joining task had finished so had they
             return 'F12'
         if 'still running' in clause and any(int(t) >= 1000 for t in map(str, je.get('undone', [])) if str(t).isdigit()):
             return 'F11'
